@@ -13,6 +13,8 @@ import (
 
 // C15 — validators deactivated only for genuine misses; re-activation only after the penalty.
 type C15 struct {
+	prevFeedsKey   string
+	lastListChange int64
 	nJustOracle, nJustFeeds, nEarlyReactivationRejected, nActivations int
 }
 
@@ -52,6 +54,17 @@ func (m *C15) OnBlock(e *Env, blk *world.BlockRecord) {
 	// every deactivation needs a genuine miss
 	grace := fk.GetParams(ctx).GracePeriod
 	cf := fs.CurFeeds // the feed list used by this end block (after a possible update)
+	// the model's own notion of "feed-list update": the last block at which the list's content (ids, order, intervals) changed.
+	// On a correct chain it is never later than the chain's own stamp (refreshed at every recomputation), so judging by it can
+	// only make a deactivation easier to justify, never harder; a stamp that is NOT refreshed when the content changes shows up.
+	key := ""
+	for _, f := range cf.Feeds {
+		key += fmt.Sprintf("%s/%d;", f.SignalID, f.Interval)
+	}
+	if key != m.prevFeedsKey {
+		m.prevFeedsKey, m.lastListChange = key, now.Unix()
+	}
+	listUpdate := m.lastListChange
 	for _, d := range fs.JDeact {
 		since := sincePre[d.Val]
 		// activations in this very block move `since`
@@ -76,14 +89,14 @@ func (m *C15) OnBlock(e *Env, blk *world.BlockRecord) {
 			for _, f := range cf.Feeds {
 				p, has := fs.Prices[d.Val][f.SignalID]
 				stale := !has || p.Status == feedstypes.SIGNAL_PRICE_STATUS_UNSPECIFIED || p.Ts+f.Interval < now.Unix()
-				if stale && since.Unix()+grace < now.Unix() && cf.LastUpdateTimestamp+grace < now.Unix() {
+				if stale && since.Unix()+grace < now.Unix() && listUpdate+grace < now.Unix() {
 					just = "feeds"
 				}
 			}
 		}
 		if just == "" {
 			e.Fail("C15", "deactivated_without_miss", "", "validator %s deactivated at height %d (time %d) but: no expired request it was asked for (while active before the request) lacks its report, and it has a fresh price for every current feed or is within grace (active since %d, feed list updated %d, grace %d)",
-				d.Val, blk.Height, now.Unix(), since.Unix(), cf.LastUpdateTimestamp, grace)
+				d.Val, blk.Height, now.Unix(), since.Unix(), listUpdate, grace)
 			return
 		}
 		if just == "oracle" {
